@@ -451,7 +451,7 @@ def run(chk, prog):
     # --- ElectricField --------------------------------------------------------------------------------
     m = E.Model(prog)
     ext = {"_formfactor": nmax, "_wakelosses": nmax, "_wakepotential_padded": nmax, "_bp_padded": nmax, "_csrspectrum": None, "_csrintensity": None, "*_impedance": nmax}
-    for op in m.OPS:
+    for op in m.ops:
         fn = m.fns[op]
         for e in m.events[op][0]:
             if e.kind in ("read", "write") and isinstance(e.lo, tuple) and len(e.lo) == 1 and e.buf in ext and ext[e.buf] is not None and e.loops:
@@ -468,7 +468,11 @@ def run(chk, prog):
                     continue
                 acc = I.Access(e.kind, e.buf, e.lo, "", {"id": e.nid}, e.line, e.guards, e.loops)
                 hi_sub = {sp.Symbol("_nbunches", real=True): B}
-                oblige(fn, acc, ext[e.buf], "FFT work buffer / impedance of _nmax samples", hi_sub)
+                # the transform length is at least one grid length (lemma below: padding >= 1): _nmax = N + pad, pad >= 0
+                ext_e = ext[e.buf]
+                if not idxe.has(nmax) and not any(L.hi is not None and sp.sympify(L.hi).has(nmax) for L in e.loops):
+                    ext_e = N + sp.Symbol("pad", nonnegative=True)
+                oblige(fn, acc, ext_e, "FFT work buffer / impedance of _nmax >= N samples", hi_sub)
             if e.kind == "write" and e.buf == "_bp_padded" and not isinstance(e.lo, tuple):
                 n1 += 1
                 if e.lo.atoms(sp.Indexed):
@@ -546,6 +550,64 @@ def run(chk, prog):
     ok = ok and all("upper_power_of_two" in str(a.value) for a in later)
     chk.check(bool(ok), "R1", mainf.where, "main: the bucket-train length is ceil(N * n_buckets * spacing), only ever enlarged (to a power of two)", "main:spaced_bins")
     chk.floor("R1-obligations", n1, 30)
+    # ---- R7: grid-coordinate look-ups of tracked positions (Ruler::at is an unchecked array read) -----------------------------------------
+    # invariant (decided under C15 R1): every tracked coordinate lies in [0, n-1].  Every index handed to q()/p()/at() in appendTracks must
+    # have an upper bound <= n-1 under that invariant: the coordinate itself (converted to an index: floor), min(., n-1), a local that holds
+    # such a value, such a value minus a constant -- but not such a value plus one.
+    at = prog.fn("vfps::HDF5File::appendTracks")
+    chk.used(at)
+    Nn = sp.Symbol("n", positive=True)
+    linit = {}
+    for x in A.walk(at["body"]):
+        if x.get("k") == "DeclStmt":
+            for d in x.get("decls", []):
+                if d.get("k") == "VarDecl" and isinstance(d.get("init"), dict):
+                    linit[d["decl"]] = d["init"]
+
+    def ub(nd, depth=0):
+        nd = A.strip(nd)
+        if depth > 8:
+            return None
+        k_ = nd.get("k")
+        if k_ in ("IntegerLiteral", "FloatingLiteral"):
+            return sp.nsimplify(nd.get("value"))
+        if k_ == "MemberExpr" and nd["member"]["name"] in ("x", "y") and "Position" in (nd["member"].get("qname") or ""):
+            return Nn - 1                       # a tracked coordinate (invariant)
+        if k_ == "MemberExpr" and nd["member"]["name"] in ("_psSizeX", "_psSizeY", "_nmeshcellsX", "_nmeshcellsY"):
+            return Nn
+        if k_ == "DeclRefExpr" and nd.get("qname") in ("vfps::PhaseSpace::nx", "vfps::PhaseSpace::ny"):
+            return Nn
+        if k_ == "DeclRefExpr" and nd.get("decl") in linit:
+            return ub(linit[nd["decl"]], depth + 1)
+        if k_ == "CallExpr" and (nd.get("callee") or "") in ("std::min", "min", "std::fmin") and len(nd.get("args", [])) == 2:
+            a_, b_ = ub(nd["args"][0], depth + 1), ub(nd["args"][1], depth + 1)
+            if a_ is None or b_ is None:
+                return a_ if b_ is None else b_
+            d_ = sp.simplify(a_ - b_)
+            return a_ if (d_.is_number and d_ <= 0) else (b_ if d_.is_number else None)
+        if k_ == "CallExpr" and (nd.get("callee") or "").split("::")[-1] in ("floor", "trunc") and nd.get("args"):
+            return ub(nd["args"][0], depth + 1)
+        if k_ == "BinaryOperator" and nd.get("op") in ("+", "-"):
+            a_, b_ = ub(nd["c"][0], depth + 1), A.strip(nd["c"][1])
+            if a_ is not None and b_.get("k") in ("IntegerLiteral", "FloatingLiteral"):
+                c_ = sp.nsimplify(b_.get("value"))
+                return a_ + c_ if nd["op"] == "+" else a_ - c_
+            return None
+        return None
+    n7 = 0
+    for x in A.walk(at["body"]):
+        cal = (x.get("callee") or "")
+        if x.get("k") in ("CXXMemberCallExpr", "CXXOperatorCallExpr") and (cal in ("vfps::PhaseSpace::q", "vfps::PhaseSpace::p", "vfps::PhaseSpace::_qp") or
+                                                                            (cal.startswith("vfps::Ruler") and cal.split("::")[-1] in ("at", "operator[]"))):
+            arg = (x.get("args") or [None])[-1]
+            if arg is None:
+                continue
+            u_ = ub(arg)
+            n7 += 1
+            okb = u_ is not None and sp.simplify(u_ - (Nn - 1)).is_number and sp.simplify(u_ - (Nn - 1)) <= 0
+            chk.check(bool(okb), "R7", A.loc(at, x), "appendTracks: the grid index handed to %s() is at most n-1 for coordinates in [0, n-1] (upper bound %s of `%s`)"
+                      % (cal.split("::")[-1], u_, A.show(arg)[:60]), "appendTracks:%s:index-bound:%s" % (cal.split("::")[-1], u_))
+    chk.floor("R7-coordinate-lookups", n7, 2)
     # ---- R6: class invariant behind the loops bounded by nFreqs(): Impedance::_nfreqs == _data.size() ---------------------------------
     # constructors establish it (R1/R4 lemmas); it survives only if nothing changes the length of _data afterwards.  Every member that can
     # (swap, assignment of the sample vector, resize, ...; directly or through another member) must have no caller outside the class.
